@@ -31,6 +31,7 @@ import select as _select
 from . import env
 
 VERIF = os.path.dirname(os.path.dirname(os.path.abspath(__file__)))
+OUT = os.environ.get('VERIF_OUT', VERIF)     # evidence/ and replays/ live here (scratch dir for mutation runs)
 DEFAULT_SEED = 20260926
 PY = sys.executable
 
@@ -262,9 +263,9 @@ def minimise(chk, case, switches, prop, oracle, budget_runs=1500, budget_s=90):
 
 
 def write_replay(prop, verif_seed, case, result, v, tag):
-    os.makedirs(os.path.join(VERIF, 'replays'), exist_ok=True)
+    os.makedirs(os.path.join(OUT, 'replays'), exist_ok=True)
     h = hashlib.blake2b(json.dumps(case, sort_keys=True).encode(), digest_size=5).hexdigest()
-    path = os.path.join(VERIF, 'replays', f'{prop}-{v["oracle"].replace(":", "_").replace(".", "_")}-{h}.json')
+    path = os.path.join(OUT, 'replays', f'{prop}-{v["oracle"].replace(":", "_").replace(".", "_")}-{h}.json')
     doc = {'property': prop, 'oracle': v['oracle'], 'signature': v['signature'], 'detail': v['detail'],
            'features': v.get('features'), 'verif_seed': verif_seed, 'origin': tag,
            'digest': result['digest'], 'case': case}
@@ -462,8 +463,8 @@ def run_check(prop, tier, verif_seed, nproc=None, max_wall=None, quiet=False):
         'coverage': cov, 'assumptions': chk.ASSUMPTIONS, 'wall_s': round(wall, 2),
         'violations': n_viol_reported,
     }
-    os.makedirs(os.path.join(VERIF, 'evidence'), exist_ok=True)
-    with open(os.path.join(VERIF, 'evidence', f'{prop}.json'), 'w') as f:
+    os.makedirs(os.path.join(OUT, 'evidence'), exist_ok=True)
+    with open(os.path.join(OUT, 'evidence', f'{prop}.json'), 'w') as f:
         json.dump(ev, f, indent=1, sort_keys=True, default=_jsonable)
     if not quiet:
         print(f'[{prop} {tier}] seed={verif_seed} runs={agg["n"]} distinct_nontrivial={len(nontrivial)} '
